@@ -1,5 +1,5 @@
 CONSTANT Tier = "quick"
-CONSTANT Kinds = {"pair", "triple", "unary", "bilin", "eq", "sym", "homog", "symeq", "hist"}
+CONSTANT Kinds = {"pair", "triple", "unary", "bilin", "eq", "sym", "homog", "symeq", "hist", "spc"}
 CONSTANT MaxN = 5
 CONSTANT Bug = "none"
 INIT Init
